@@ -11,6 +11,7 @@ namespace Unifex.Driver
 def table : List ModelEntries :=
   [ Entries.stopsource
   , Entries.cancellable
+  , Entries.cancellableafter
   , Entries.detachoncancel
   , Entries.canary
   , Entries.stoponrequest
